@@ -469,7 +469,7 @@ orc_compiler_compile_program (OrcCompiler *compiler, OrcProgram *program, OrcTar
   if (compiler->error) goto error;
 
   ORC_INFO("allocating code memory");
-  compiler->code = orc_malloc(65536);
+  compiler->code = orc_malloc(ORC_COMPILER_CODE_BUFFER_SIZE);
   compiler->codeptr = compiler->code;
 
   if (compiler->error) goto error;
